@@ -6,12 +6,19 @@
 mod common;
 mod gw;
 mod gwgen;
+mod tk;
+mod tkgen;
 
 use common::*;
 use std::io::Write;
 
 pub trait World {
     fn exec(&mut self, toks: &[&str]) -> (String, String);
+}
+impl World for tk::TkWorld {
+    fn exec(&mut self, toks: &[&str]) -> (String, String) {
+        tk::TkWorld::exec(self, toks)
+    }
 }
 impl World for gw::GwWorld {
     fn exec(&mut self, toks: &[&str]) -> (String, String) {
@@ -22,6 +29,7 @@ impl World for gw::GwWorld {
 pub fn new_world(cluster: &str) -> Box<dyn World> {
     match cluster {
         "gw" => Box::new(gw::GwWorld::new()),
+        "tk" => Box::new(tk::TkWorld::new()),
         other => panic!("unknown cluster {other}"),
     }
 }
@@ -80,6 +88,7 @@ fn main() {
                 "C08" => gwgen::gen_c08(&mut run, seed, thorough),
                 "C09" => gwgen::gen_c09(&mut run, seed, thorough),
                 "C13" => gwgen::gen_c13(&mut run, seed, thorough),
+                "C12" => tkgen::gen_c12(&mut run, seed, thorough),
                 other => {
                     eprintln!("no generator for {other}");
                     std::process::exit(2);
